@@ -1546,13 +1546,14 @@ class Data(BaseCartesianData):
                 comp = self.get_component(comp)
             comp._data = np.asarray(data)
 
+        # listeners may evaluate masks as soon as they hear of the change
+        for subset in self.subsets:
+            _clear_mask_cache(subset.subset_state)
+
         # alert hub of the change
         if self.hub is not None:
             msg = NumericalDataChangedMessage(self, components_changed=list(mapping.keys()))
             self.hub.broadcast(msg)
-
-        for subset in self.subsets:
-            _clear_mask_cache(subset.subset_state)
 
     def update_values_from_data(self, data):
         """
@@ -1618,13 +1619,14 @@ class Data(BaseCartesianData):
         # Update data coordinates
         self.coords = data.coords
 
+        # listeners may evaluate masks as soon as they hear of the change
+        for subset in self.subsets:
+            _clear_mask_cache(subset.subset_state)
+
         # alert hub of the change
         if self.hub is not None:
             msg = NumericalDataChangedMessage(self)
             self.hub.broadcast(msg)
-
-        for subset in self.subsets:
-            _clear_mask_cache(subset.subset_state)
 
     # The following are methods for accessing the data in various ways that
     # can be overriden by subclasses that want to improve performance.
